@@ -146,10 +146,12 @@ PROPS = {
         harnesses=[
             dict(run="pkg/server/etcd.VerifC18Etcd", covers=["write-applied", "write-forwarded", "write-rejected", "read-served", "read-refused", "watch-served", "watch-forwarded", "watch-rejected"]),
             dict(run="pkg/server/brain.VerifC18Brain", covers=["write-applied", "write-rejected", "read-served", "read-refused", "watch-served", "watch-rejected"]),
+            dict(run="pkg/server/service/revision.VerifC18Sync", covers=["adopted", "refused"]),
+            dict(run="pkg/server/service/revision.VerifC18Concurrent", quick=dict(preempt=2), thorough=dict(preempt=3), covers=["done"], stress=5),
         ],
-        bounds=dict(quick="every handler of both APIs (etcd Txn x3 shapes, Range get/list/count/partitions, Watch; native Create/Update/Delete/Compact/Get/Range/Count/ListPartition/RangeStream/Watch) x {leader, follower} x {proxy on, off} x {leader reachable, unreachable}; watch start revision symbolic",
-                    thorough="same (the space is finite and enumerated completely)"),
-        outside="concurrent follower reads sharing one in-flight revision fetch (recorded finding C18-singleflight, not checked by this harness: needs an HTTP/singleflight model, see DESIGN.md); the HTTP transport and the etcd proxy client",
+        bounds=dict(quick="every handler of both APIs (etcd Txn x3 shapes, Range get/list/count/partitions, Watch; native Create/Update/Delete/Compact/Get/Range/Count/ListPartition/RangeStream/Watch) x {leader, follower} x {proxy on, off} x {leader reachable, unreachable}; watch start revision symbolic; the real revision syncer against a leader that answers with a symbolic revision / an error status / not at all / with its answer cut after the headers; 2 concurrent follower reads sharing the real single-flight fetch while the leader commits a write (<= 2 scheduling delays)",
+                    thorough="3 scheduling delays for the concurrent reads; the handler enumeration is complete in both tiers"),
+        outside="TLS / schema retry of the syncer (http only); the etcd proxy client; more than 2 concurrent follower reads",
     ),
     "C14": dict(
         harnesses=[
